@@ -53,6 +53,16 @@ non-blank character is `"` is left alone; an all-blank value is where the real f
 def idCaseSpec (c : CaseConv) (t : Tok) : Tok :=
   if (t.tt == T.Name || t.tt == T.StringSymbol) && (pyStrip t.val).head? != some 34 then ⟨t.tt, c.apply t.val⟩ else t
 
+theorem idcase_untouched (c : CaseConv) (t : Tok) (h1 : t.tt ≠ T.Name) (h2 : t.tt ≠ T.StringSymbol) : idCaseSpec c t = t := by
+  simp [idCaseSpec, h1, h2]
+
+theorem idcase_types (c : CaseConv) (ts : List Tok) : (ts.map (idCaseSpec c)).map (·.tt) = ts.map (·.tt) := by
+  rw [List.map_map]
+  congr 1
+  funext t
+  simp only [Function.comp, idCaseSpec]
+  split <;> rfl
+
 theorem idCaseTok_ok (c : CaseConv) (t t' : Tok) (h : idCaseTok c t = .ok t') : t' = idCaseSpec c t := by
   unfold idCaseTok at h
   rw [idCaseTT_exact] at h
@@ -134,5 +144,657 @@ theorem idcase_error_iff (c : CaseConv) (ts : List Tok) :
         · exact absurd hu1 ht
         · obtain ⟨e, he⟩ := ih.mpr ⟨u, hu', hu1, hu2⟩
           exact ⟨e, by rw [he]; rfl⟩
+
+
+theorem idcase_map_idem (c : CaseConv) (hc : ∀ v, c.apply (c.apply v) = c.apply v)
+    (hq : ∀ v, (pyStrip (c.apply v)).head? = some 34 ↔ (pyStrip v).head? = some 34) (ts : List Tok) :
+    (ts.map (idCaseSpec c)).map (idCaseSpec c) = ts.map (idCaseSpec c) := by
+  rw [List.map_map]
+  congr 1
+  funext t
+  simp only [Function.comp]
+  by_cases h : ((t.tt == T.Name || t.tt == T.StringSymbol) && (pyStrip t.val).head? != some 34) = true
+  · have h1 : idCaseSpec c t = ⟨t.tt, c.apply t.val⟩ := by simp only [idCaseSpec, h, if_true]
+    rw [h1]
+    simp only [Bool.and_eq_true, bne_iff_ne, ne_eq] at h
+    have h2 : ((t.tt == T.Name || t.tt == T.StringSymbol) && (pyStrip (c.apply t.val)).head? != some 34) = true := by
+      simp only [Bool.and_eq_true, bne_iff_ne, ne_eq]
+      exact ⟨h.1, fun hh => h.2 ((hq _).mp hh)⟩
+    simp only [idCaseSpec, h2, if_true, hc]
+  · have h1 : idCaseSpec c t = t := by simp only [idCaseSpec, h]; rfl
+    rw [h1, h1]
+
+/-- `TruncateStringFilter(width, char)` with a `str` char on one token -/
+def truncSpec (w : Int) (ch : Text) (t : Tok) : Tok :=
+  if t.tt == T.StringSingle then
+    let dbl := t.val.take 2 == [39, 39]
+    let inner := if dbl then sliceInner 2 t.val else sliceInner 1 t.val
+    let quote : Text := if dbl then [39, 39] else [39]
+    if (inner.length : Int) > w then ⟨t.tt, quote ++ takeInt w inner ++ ch ++ quote⟩ else t
+  else t
+
+theorem truncTok_str (w : Int) (ch : Text) (t : Tok) : truncTok w (.str ch) t = .ok (truncSpec w ch t) := by
+  unfold truncTok truncSpec
+  by_cases h : t.tt = T.StringSingle
+  · simp only [h, bne_self_eq_false, Bool.false_eq_true, if_false, beq_self_eq_true, if_true]
+    split <;> split <;> rfl
+  · simp [h]
+
+theorem truncate_spec (w : Int) (ch : Text) (ts : List Tok) :
+    truncateStringFilter w (.str ch) ts = .ok (ts.map (truncSpec w ch)) := by
+  induction ts with
+  | nil => rfl
+  | cons t ts ih => simp [truncateStringFilter, truncTok_str, ih, Except.map]
+
+theorem truncate_untouched (w : Int) (ch : Text) (t : Tok) (h : t.tt ≠ T.StringSingle) : truncSpec w ch t = t := by
+  simp [truncSpec, h]
+
+theorem sliceInner_wrap (a : Nat) (q m q' : Text) (hq : q.length = a) (hq' : q'.length = a) :
+    sliceInner a (q ++ m ++ q') = m := by
+  unfold sliceInner
+  have h1 : (q ++ m ++ q').length - a = (q ++ m).length := by simp [hq']; omega
+  rw [h1, List.take_left' rfl, List.drop_left' hq]
+
+theorem takeInt_nonneg (w : Int) (hw : 0 ≤ w) (v : Text) : takeInt w v = v.take w.toNat := by
+  simp [takeInt, hw]
+
+/-- the truncated value, as a function of the quote, the kept part and the marker -/
+theorem truncSpec_wrapped (w : Int) (hw : 1 ≤ w) (ch q m : Text) (tt : TType) (htt : tt = T.StringSingle)
+    (hq : q = [39, 39] ∨ (q = [39] ∧ m.head? ≠ some 39 ∧ m ≠ []))
+    (hm : m.length = w.toNat) :
+    truncSpec w ch ⟨tt, q ++ m ++ ch ++ q⟩ = ⟨tt, q ++ m ++ ch ++ q⟩ := by
+  have hw0 : 0 ≤ w := by omega
+  unfold truncSpec
+  simp only [htt, beq_self_eq_true, if_true]
+  rcases hq with rfl | ⟨rfl, hh, hne⟩
+  · have hd : (([39, 39] ++ m ++ ch ++ [39, 39] : Text).take 2 == [39, 39]) = true := by simp
+    simp only [hd, if_true]
+    have hs : sliceInner 2 ([39, 39] ++ m ++ ch ++ [39, 39]) = m ++ ch := by
+      have := sliceInner_wrap 2 [39, 39] (m ++ ch) [39, 39] rfl rfl
+      simpa [List.append_assoc] using this
+    rw [hs]
+    by_cases hl : ((m ++ ch).length : Int) > w
+    · simp only [hl, if_true]
+      rw [takeInt_nonneg w hw0, List.take_left' hm]
+    · simp only [hl, if_false]
+  · obtain ⟨x, r, rfl⟩ := List.exists_cons_of_ne_nil hne
+    have hx : x ≠ 39 := by simpa using hh
+    have hd : (([39] ++ (x :: r) ++ ch ++ [39] : Text).take 2 == [39, 39]) = false := by
+      simp [hx]
+    simp only [hd, Bool.false_eq_true, if_false]
+    have hs : sliceInner 1 ([39] ++ (x :: r) ++ ch ++ [39]) = (x :: r) ++ ch := by
+      have := sliceInner_wrap 1 [39] ((x :: r) ++ ch) [39] rfl rfl
+      simpa [List.append_assoc] using this
+    rw [hs]
+    by_cases hl : (((x :: r) ++ ch).length : Int) > w
+    · simp only [hl, if_true]
+      rw [takeInt_nonneg w hw0, List.take_left' hm]
+    · simp only [hl, if_false]
+
+/-- idempotence of the truncation of one token: for a width `≥ 1` (validate_options enforces `≥ 2`) and a string token
+that starts with a quote (as the lexer's do) -/
+theorem truncSpec_idem (w : Int) (hw : 1 ≤ w) (ch : Text) (t : Tok)
+    (hv : t.tt = T.StringSingle → t.val.head? = some 39) :
+    truncSpec w ch (truncSpec w ch t) = truncSpec w ch t := by
+  have hw0 : 0 ≤ w := by omega
+  by_cases htt : t.tt = T.StringSingle
+  · obtain ⟨tt, v⟩ := t
+    simp only at htt hv
+    have hv' := hv htt
+    by_cases hd : (v.take 2 == [39, 39]) = true
+    · by_cases hl : ((sliceInner 2 v).length : Int) > w
+      · have h1 : truncSpec w ch ⟨tt, v⟩ = ⟨tt, [39, 39] ++ (sliceInner 2 v).take w.toNat ++ ch ++ [39, 39]⟩ := by
+          simp only [truncSpec, htt, beq_self_eq_true, if_true, hd]
+          rw [if_pos hl, takeInt_nonneg w hw0]
+        rw [h1]
+        apply truncSpec_wrapped w hw ch _ _ tt htt (Or.inl rfl)
+        rw [List.length_take]; omega
+      · have h1 : truncSpec w ch ⟨tt, v⟩ = ⟨tt, v⟩ := by
+          simp only [truncSpec, htt, beq_self_eq_true, if_true, hd]
+          rw [if_neg hl]
+        rw [h1, h1]
+    · have hd' : (v.take 2 == [39, 39]) = false := by simpa using hd
+      by_cases hl : ((sliceInner 1 v).length : Int) > w
+      · have h1 : truncSpec w ch ⟨tt, v⟩ = ⟨tt, [39] ++ (sliceInner 1 v).take w.toNat ++ ch ++ [39]⟩ := by
+          simp only [truncSpec, htt, beq_self_eq_true, if_true, hd', Bool.false_eq_true, if_false]
+          rw [if_pos hl, takeInt_nonneg w hw0]
+        rw [h1]
+        apply truncSpec_wrapped w hw ch _ _ tt htt
+        · right
+          refine ⟨rfl, ?_, ?_⟩
+          · -- the first kept character is `v[1]`, which is not a quote because `v[:2] ≠ "''"`
+            match v, hv', hd, hl with
+            | [], h, _, _ => simp at h
+            | [a], _, _, hl => simp [sliceInner] at hl; omega
+            | a :: b :: r, h, hd, hl =>
+              simp only [List.head?_cons, Option.some.injEq] at h
+              subst h
+              have hb : b ≠ 39 := by simpa using hd
+              have hn : 0 < w.toNat := by omega
+              have : sliceInner 1 (39 :: b :: r) = (b :: r).take (r.length) := by
+                simp [sliceInner]
+              rw [this]
+              cases r with
+              | nil => simp [sliceInner] at hl; omega
+              | cons c r' =>
+                obtain ⟨n, hn'⟩ : ∃ n, w.toNat = n + 1 := ⟨w.toNat - 1, by omega⟩
+                simp [hn', hb]
+          · intro h0
+            have : ((sliceInner 1 v).take w.toNat).length = 0 := by rw [h0]; rfl
+            rw [List.length_take] at this
+            omega
+        · rw [List.length_take]; omega
+      · have h1 : truncSpec w ch ⟨tt, v⟩ = ⟨tt, v⟩ := by
+          simp only [truncSpec, htt, beq_self_eq_true, if_true, hd', Bool.false_eq_true, if_false]
+          rw [if_neg hl]
+        rw [h1, h1]
+  · have h1 : truncSpec w ch t = t := by simp [truncSpec, htt]
+    rw [h1, h1]
+
+/-- idempotence of `TruncateStringFilter` as a token map -/
+theorem truncate_idem (w : Int) (hw : 1 ≤ w) (ch : Text) (ts : List Tok)
+    (hv : ∀ t ∈ ts, t.tt = T.StringSingle → t.val.head? = some 39) :
+    (ts.map (truncSpec w ch)).map (truncSpec w ch) = ts.map (truncSpec w ch) := by
+  rw [List.map_map]
+  apply List.map_congr_left
+  intro t ht
+  exact truncSpec_idem w hw ch t (hv t ht)
+
+
+/-! ## (d) serializer -/
+
+theorem dropWhile_head_not {α : Type} (p : α → Bool) : ∀ (l : List α) (a : α), (l.dropWhile p).head? = some a → p a = false
+  | [], a, h => by simp at h
+  | x :: xs, a, h => by
+    by_cases hx : p x = true
+    · rw [List.dropWhile_cons_of_pos hx] at h
+      exact dropWhile_head_not p xs a h
+    · rw [List.dropWhile_cons_of_neg hx] at h
+      simp only [List.head?_cons, Option.some.injEq] at h
+      subst h
+      simpa using hx
+
+/-- `str.rstrip()` leaves no trailing whitespace character -/
+theorem pyRStrip_last (v : Text) (c : Cp) (h : (pyRStrip v).getLast? = some c) : isSpace c = false := by
+  unfold pyRStrip at h
+  rw [List.getLast?_reverse] at h
+  exact dropWhile_head_not isSpace _ c h
+
+/-- the serializer's output is the `'\n'`-join of pieces none of which ends in a whitespace character
+(`'\n'.join(line.rstrip() for line in lines)`) -/
+theorem serializer_no_trailing_blank (t : Text) :
+    ∃ ls : List Text, serializeText t = joinNl ls ∧ ∀ l ∈ ls, ∀ c, l.getLast? = some c → isSpace c = false := by
+  refine ⟨(splitUnquotedNewlines t).map pyRStrip, rfl, ?_⟩
+  intro l hl c hc
+  obtain ⟨v, _, rfl⟩ := List.mem_map.mp hl
+  exact pyRStrip_last v c hc
+
+
+/-! ## (b) whitespace filters preserve the significant leaves -/
+
+namespace FNode
+mutual
+/-- the leaves of a node as `(type, value)` pairs, in order (`list(node.flatten())`) -/
+def leaves : FNode → List Tok
+  | .tok tt v => [⟨tt, v⟩]
+  | .grp _ _ ks => leavesL ks
+def leavesL : List FNode → List Tok
+  | [] => []
+  | k :: ks => k.leaves ++ leavesL ks
+end
+end FNode
+
+open FNode (leaves leavesL)
+
+/-- the leaves that are not whitespace-typed -/
+def sigToks (ts : List Tok) : List Tok := ts.filter fun t => !t.tt.isIn T.Whitespace
+
+def sigL (ks : List FNode) : List Tok := sigToks (leavesL ks)
+
+theorem sigToks_append (a b : List Tok) : sigToks (a ++ b) = sigToks a ++ sigToks b := by
+  simp [sigToks]
+
+theorem leavesL_append : ∀ (a b : List FNode), leavesL (a ++ b) = leavesL a ++ leavesL b
+  | [], b => rfl
+  | k :: a, b => by simp [leavesL, leavesL_append a b]
+
+theorem sigL_nil : sigL [] = [] := rfl
+
+theorem sigL_cons (k : FNode) (ks : List FNode) : sigL (k :: ks) = sigToks k.leaves ++ sigL ks := by
+  simp [sigL, leavesL, sigToks_append]
+
+theorem sigL_append (a b : List FNode) : sigL (a ++ b) = sigL a ++ sigL b := by
+  simp [sigL, leavesL_append, sigToks_append]
+
+theorem sig_ws (k : FNode) (h : k.isWhitespace = true) : sigToks k.leaves = [] := by
+  cases k with
+  | tok tt v => simp [FNode.isWhitespace] at h; simp [leaves, sigToks, h]
+  | grp c cv ks => simp [FNode.isWhitespace] at h
+
+theorem sig_wsTok : sigToks wsTok.leaves = [] := by
+  simp [wsTok, leaves, sigToks, T.Whitespace, TType.isIn]
+
+theorem sigL_all_ws : ∀ (l : List FNode), (∀ k ∈ l, k.isWhitespace = true) → sigL l = []
+  | [], _ => rfl
+  | k :: l, h => by
+    rw [sigL_cons, sig_ws k (h k List.mem_cons_self), sigL_all_ws l (fun x hx => h x (List.mem_cons_of_mem _ hx))]
+    rfl
+
+theorem sigL_dropWhile_ws : ∀ (l : List FNode), sigL (l.dropWhile FNode.isWhitespace) = sigL l
+  | [] => rfl
+  | k :: l => by
+    by_cases h : k.isWhitespace = true
+    · rw [List.dropWhile_cons_of_pos h, sigL_dropWhile_ws l, sigL_cons, sig_ws k h]; rfl
+    · rw [List.dropWhile_cons_of_neg h]
+
+theorem mem_takeWhile_sat {α : Type} (p : α → Bool) : ∀ (l : List α) (a : α), a ∈ l.takeWhile p → p a = true
+  | [], a, h => by simp at h
+  | x :: xs, a, h => by
+    by_cases hx : p x = true
+    · rw [List.takeWhile_cons_of_pos hx] at h
+      rcases List.mem_cons.mp h with rfl | h'
+      · exact hx
+      · exact mem_takeWhile_sat p xs a h'
+    · rw [List.takeWhile_cons_of_neg hx] at h
+      simp at h
+
+theorem sigL_dropTrailingWs (l : List FNode) : sigL (dropTrailingWs l) = sigL l := by
+  unfold dropTrailingWs
+  have h := List.takeWhile_append_dropWhile (p := FNode.isWhitespace) (l := l.reverse)
+  have h2 : l = (l.reverse.dropWhile FNode.isWhitespace).reverse ++ (l.reverse.takeWhile FNode.isWhitespace).reverse := by
+    have := congrArg List.reverse h
+    simp only [List.reverse_append, List.reverse_reverse] at this
+    exact this.symm
+  conv => rhs; rw [h2]
+  rw [sigL_append]
+  have : sigL (l.reverse.takeWhile FNode.isWhitespace).reverse = [] := by
+    apply sigL_all_ws
+    intro k hk
+    have hk' := List.mem_reverse.mp hk
+    exact mem_takeWhile_sat FNode.isWhitespace _ k hk'
+  rw [this, List.append_nil]
+
+mutual
+/-- the generic step: a bottom-up filter whose level function preserves the significant leaves of the child list
+preserves the significant leaves of the tree -/
+theorem sig_bottomUp (f : Nat → Cls → List FNode → Except PyErr (List FNode))
+    (hf : ∀ d c ks ks', f d c ks = .ok ks' → sigL ks' = sigL ks) : ∀ (n : FNode) (fuel depth : Nat) (n' : FNode),
+    bottomUp f fuel depth n = .ok n' → sigToks n'.leaves = sigToks n.leaves
+  | .tok tt v, fuel, depth, n', h => by
+    unfold bottomUp at h
+    simp only [Except.ok.injEq] at h
+    rw [← h]
+  | .grp c cv ks, fuel, depth, n', h => by
+    unfold bottomUp at h
+    cases fuel with
+    | zero => simp at h
+    | succ fuel' =>
+      simp only at h
+      cases hk : bottomUpL f fuel' (depth + 1) ks with
+      | error e => rw [hk] at h; cases h
+      | ok ks' =>
+        rw [hk] at h
+        simp only at h
+        cases hf2 : f depth c ks' with
+        | error e => rw [hf2] at h; cases h
+        | ok ks'' =>
+          rw [hf2] at h
+          simp only [Except.ok.injEq] at h
+          rw [← h]
+          show sigL ks'' = sigL ks
+          rw [hf depth c ks' ks'' hf2, sig_bottomUpL f hf ks fuel' (depth + 1) ks' hk]
+theorem sig_bottomUpL (f : Nat → Cls → List FNode → Except PyErr (List FNode))
+    (hf : ∀ d c ks ks', f d c ks = .ok ks' → sigL ks' = sigL ks) : ∀ (ns : List FNode) (fuel depth : Nat) (ns' : List FNode),
+    bottomUpL f fuel depth ns = .ok ns' → sigL ns' = sigL ns
+  | [], fuel, depth, ns', h => by
+    unfold bottomUpL at h
+    simp only [Except.ok.injEq] at h
+    rw [← h]
+  | k :: rest, fuel, depth, ns', h => by
+    unfold bottomUpL at h
+    cases hk : bottomUp f fuel depth k with
+    | error e => rw [hk] at h; cases h
+    | ok k' =>
+      rw [hk] at h
+      simp only at h
+      cases hr : bottomUpL f fuel depth rest with
+      | error e => rw [hr] at h; cases h
+      | ok rest' =>
+        rw [hr] at h
+        simp only [Except.ok.injEq] at h
+        rw [← h, sigL_cons, sigL_cons, sig_bottomUp f hf k fuel depth k' hk, sig_bottomUpL f hf rest fuel depth rest' hr]
+end
+
+
+theorem sigL_singleton (k : FNode) : sigL [k] = sigToks k.leaves := by
+  simp [sigL, leavesL]
+
+theorem sigL_ifws (b : Bool) : sigL (if b = true then [wsTok] else []) = [] := by
+  cases b <;> simp [sigL_singleton, sig_wsTok, sigL_nil]
+
+theorem sigL_spacesGo : ∀ (ks : List FNode) (prev : Option FNode) (pending : Bool),
+    sigL (spacesGo prev pending ks) = sigL ks
+  | [], prev, pending => by
+    unfold spacesGo
+    cases pending
+    · rfl
+    · simp [sigL_singleton, sig_wsTok, sigL_nil]
+  | k :: rest, prev, pending => by
+    unfold spacesGo
+    by_cases h1 : (pending && k.isWhitespace) = true
+    · rw [if_pos h1, sigL_cons, sigL_cons, sigL_spacesGo rest]
+    · rw [if_neg h1]
+      by_cases h2 : isSpaceOp k = true
+      · simp only [h2, if_true]
+        rw [sigL_append, sigL_append, sigL_ifws, sigL_ifws, sigL_cons, sigL_cons, sigL_spacesGo rest]
+        rfl
+      · simp only [h2, Bool.false_eq_true, if_false]
+        rw [sigL_append, sigL_ifws, sigL_cons, sigL_cons, sigL_spacesGo rest]
+        rfl
+
+/-- `SpacesAroundOperatorsFilter` preserves the sequence of non-whitespace leaves (type and value) -/
+theorem spaces_preserves_sig (fuel : Nat) (n n' : FNode) (h : spacesAroundOperators fuel n = .ok n') :
+    sigToks n'.leaves = sigToks n.leaves := by
+  unfold spacesAroundOperators at h
+  refine sig_bottomUp _ ?_ n fuel 0 n' h
+  intro d c ks ks' hk
+  simp only [Except.ok.injEq] at hk
+  rw [← hk]
+  exact sigL_spacesGo ks none false
+
+theorem sigL_stripwsDefaultGo : ∀ (ks : List FNode) (a b : Bool), sigL (stripwsDefaultGo a b ks) = sigL ks
+  | [], a, b => rfl
+  | k :: rest, a, b => by
+    unfold stripwsDefaultGo
+    rw [sigL_cons, sigL_cons, sigL_stripwsDefaultGo rest]
+    congr 1
+    cases k with
+    | tok tt v =>
+      by_cases h : tt.isIn T.Whitespace = true
+      · simp [h, leaves, sigToks]
+      · simp only [h]
+        rfl
+    | grp c cv ks => rfl
+
+theorem sigL_dropWsBeforeComma : ∀ (ks : List FNode), sigL (dropWsBeforeComma ks) = sigL ks
+  | [] => rfl
+  | a :: rest => by
+    unfold dropWsBeforeComma
+    have key : ∀ (c : Bool), (c = true → a.isWhitespace = true) →
+        sigL (if c = true then dropWsBeforeComma rest else a :: dropWsBeforeComma rest) = sigL (a :: rest) := by
+      intro c hc
+      cases c with
+      | true =>
+        rw [if_pos rfl, sigL_dropWsBeforeComma rest, sigL_cons, sig_ws a (hc rfl)]
+        rfl
+      | false =>
+        simp only [Bool.false_eq_true, if_false]
+        rw [sigL_cons, sigL_cons, sigL_dropWsBeforeComma rest]
+    exact key _ (by intro h; simp only [Bool.and_eq_true] at h; exact h.1)
+
+theorem sigL_popTrailingWs (ks : List FNode) : sigL (popTrailingWs ks) = sigL ks := by
+  unfold popTrailingWs
+  cases hl : ks.getLast? with
+  | none => rfl
+  | some l =>
+    simp only
+    by_cases hw : l.isWhitespace = true
+    · rw [if_pos hw]
+      obtain ⟨ys, hys⟩ := List.getLast?_eq_some_iff.mp hl
+      have hd : ks.dropLast = ys := by rw [hys]; simp
+      rw [hd]
+      conv => rhs; rw [hys]
+      rw [sigL_append, sigL_singleton, sig_ws l hw, List.append_nil]
+    · rw [if_neg hw]
+
+
+theorem sigL_stripwsDefault (ks : List FNode) : sigL (stripwsDefault ks) = sigL ks := sigL_stripwsDefaultGo ks false true
+
+theorem sigL_stripwsParenthesis (ks ks' : List FNode) (h : stripwsParenthesis ks = .ok ks') : sigL ks' = sigL ks := by
+  unfold stripwsParenthesis at h
+  cases ks with
+  | nil => simp at h
+  | cons first tl =>
+    simp only at h
+    cases hdw : tl.dropWhile FNode.isWhitespace with
+    | nil => rw [hdw] at h; simp at h
+    | cons t1 tl1 =>
+      rw [hdw] at h
+      simp only at h
+      have hks : sigL (first :: tl) = sigL (first :: t1 :: tl1) := by
+        rw [sigL_cons, sigL_cons, ← hdw, sigL_dropWhile_ws]
+      -- split off the last element
+      obtain ⟨ys, l', hys⟩ : ∃ ys l', t1 :: tl1 = ys ++ [l'] := by
+        have hne : (t1 :: tl1) ≠ [] := by simp
+        exact ⟨(t1 :: tl1).dropLast, (t1 :: tl1).getLast hne, (List.dropLast_concat_getLast hne).symm⟩
+      have hlast : (t1 :: tl1).getLast?.getD t1 = l' := by rw [hys]; simp
+      have hinit : (first :: t1 :: tl1).dropLast = first :: ys := by
+        rw [hys]
+        cases ys with
+        | nil => simp
+        | cons y ys' => simp [List.dropLast]
+      rw [hlast, hinit] at h
+      have hall : sigL (first :: t1 :: tl1) = sigL (first :: ys) ++ sigToks l'.leaves := by
+        rw [hys, sigL_cons, sigL_append, sigL_singleton, sigL_cons, List.append_assoc]
+      cases hrev : (dropTrailingWs (first :: ys)).reverse with
+      | nil => rw [hrev] at h; simp at h
+      | cons pen revInit =>
+        rw [hrev] at h
+        simp only at h
+        have hdt : dropTrailingWs (first :: ys) = revInit.reverse ++ [pen] := by
+          have := congrArg List.reverse hrev
+          simpa using this
+        have hinit2 : sigL (first :: ys) = sigL revInit.reverse ++ sigToks pen.leaves := by
+          rw [← sigL_dropTrailingWs, hdt, sigL_append, sigL_singleton]
+        cases pen with
+        | tok tt v =>
+          simp only [Except.ok.injEq] at h
+          rw [← h, sigL_stripwsDefault, sigL_append, sigL_cons, sigL_singleton, hks, hall, hinit2, List.append_assoc]
+        | grp c cv gks =>
+          simp only at h
+          cases hg : dropTrailingWs gks with
+          | nil => rw [hg] at h; simp at h
+          | cons g0 grest =>
+            rw [hg] at h
+            simp only [Except.ok.injEq] at h
+            have hgs : sigToks (FNode.grp c cv (g0 :: grest)).leaves = sigToks (FNode.grp c cv gks).leaves := by
+              show sigL (g0 :: grest) = sigL gks
+              rw [← hg, sigL_dropTrailingWs]
+            rw [← h, sigL_stripwsDefault, sigL_append, sigL_cons, sigL_singleton, hgs, hks, hall, hinit2, List.append_assoc]
+
+theorem sigL_stripwsLevel (d : Nat) (c : Cls) (ks ks' : List FNode) (h : stripwsLevel d c ks = .ok ks') : sigL ks' = sigL ks := by
+  unfold stripwsLevel at h
+  cases hd : stripwsDispatch c ks with
+  | error e => rw [hd] at h; cases h
+  | ok ks1 =>
+    rw [hd] at h
+    simp only [Except.ok.injEq] at h
+    have h1 : sigL ks1 = sigL ks := by
+      unfold stripwsDispatch at hd
+      split at hd
+      · simp only [Except.ok.injEq] at hd
+        rw [← hd]; unfold stripwsIdentifierList; rw [sigL_stripwsDefault, sigL_dropWsBeforeComma]
+      · exact sigL_stripwsParenthesis ks ks1 hd
+      · simp only [Except.ok.injEq] at hd
+        rw [← hd, sigL_stripwsDefault]
+    rw [← h]
+    split
+    · rw [sigL_popTrailingWs, h1]
+    · exact h1
+
+/-- `StripWhitespaceFilter` preserves the sequence of non-whitespace leaves (type and value) -/
+theorem stripWhitespace_preserves_sig (fuel : Nat) (n n' : FNode) (h : stripWhitespace fuel n = .ok n') :
+    sigToks n'.leaves = sigToks n.leaves :=
+  sig_bottomUp stripwsLevel sigL_stripwsLevel n fuel 0 n' h
+
+
+/-! ## (c) `StripCommentsFilter` removes only comment leaves and inserts only whitespace leaves -/
+
+/-- leaves that are neither whitespace- nor comment-typed -/
+def ncToks (ts : List Tok) : List Tok := ts.filter fun t => !t.tt.isIn T.Whitespace && !t.tt.isIn T.Comment
+
+def ncL (ks : List FNode) : List Tok := ncToks (leavesL ks)
+
+theorem ncToks_append (a b : List Tok) : ncToks (a ++ b) = ncToks a ++ ncToks b := by simp [ncToks]
+theorem ncL_cons (k : FNode) (ks : List FNode) : ncL (k :: ks) = ncToks k.leaves ++ ncL ks := by
+  simp [ncL, leavesL, ncToks_append]
+theorem ncL_append (a b : List FNode) : ncL (a ++ b) = ncL a ++ ncL b := by
+  simp [ncL, leavesL_append, ncToks_append]
+theorem ncL_singleton (k : FNode) : ncL [k] = ncToks k.leaves := by simp [ncL, leavesL]
+
+mutual
+/-- every `sql.Comment` group consists of comment and whitespace leaves only (what `group_comments` builds) -/
+def commentsPure : FNode → Bool
+  | .tok .. => true
+  | .grp c _ ks => commentsPureL ks && (c != .Comment || (leavesL ks).all fun t => t.tt.isIn T.Whitespace || t.tt.isIn T.Comment)
+def commentsPureL : List FNode → Bool
+  | [] => true
+  | k :: ks => commentsPure k && commentsPureL ks
+end
+
+theorem ncToks_of_all (ts : List Tok) (h : ts.all (fun t => t.tt.isIn T.Whitespace || t.tt.isIn T.Comment) = true) : ncToks ts = [] := by
+  induction ts with
+  | nil => rfl
+  | cons t ts ih =>
+    simp only [List.all_cons, Bool.and_eq_true] at h
+    have ht : (!t.tt.isIn T.Whitespace && !t.tt.isIn T.Comment) = false := by
+      rcases Bool.or_eq_true _ _ |>.mp h.1 with h1 | h1 <;> simp [h1]
+    simp only [ncToks, List.filter_cons, ht]
+    exact ih h.2
+
+theorem insertTokenFor_nc (v : Text) : ncToks (insertTokenFor v).leaves = [] := by
+  cases h : reSearch (reEnv v.toArray) Gen.insertRe 0 with
+  | none => simp only [insertTokenFor, h]; rfl
+  | some p => simp only [insertTokenFor, h]; rfl
+
+theorem ncL_ite (c : Bool) (A B : List FNode) (R : List Tok) (hA : ncL A = R) (hB : ncL B = R) :
+    ncL (if c = true then A else B) = R := by
+  cases c <;> simp [hA, hB]
+
+/-- a node the filter may delete contributes nothing outside comments and whitespace -/
+def Removable (k : FNode) : Prop := isCommentNode k = true → ncToks k.leaves = []
+
+theorem ncL_stripCommentsGo : ∀ (n : Nat) (ks done : List FNode), ks.length ≤ n → (∀ k ∈ ks, Removable k) →
+    ncL (stripCommentsGo done ks) = ncL done.reverse ++ ncL ks
+  | _, [], done, _, _ => by simp [stripCommentsGo, ncL, leavesL, ncToks]
+  | 0, k :: rest, done, hn, _ => by simp at hn
+  | n+1, k :: rest, done, hn, hr => by
+    have hn' : rest.length ≤ n := by simpa using hn
+    have hrest : ∀ x ∈ rest, Removable x := fun x hx => hr x (List.mem_cons_of_mem _ hx)
+    unfold stripCommentsGo
+    by_cases h1 : (!isCommentNode k || isSqlHint k) = true
+    · rw [if_pos h1, ncL_stripCommentsGo n rest (k :: done) hn' hrest, List.reverse_cons, ncL_append, ncL_singleton, ncL_cons,
+        List.append_assoc]
+    · rw [if_neg h1]
+      have hk : ncToks k.leaves = [] := by
+        apply hr k List.mem_cons_self
+        simp only [Bool.or_eq_true, Bool.not_eq_true', not_or, Bool.not_eq_false] at h1
+        exact h1.1
+      apply ncL_ite
+      · rw [ncL_stripCommentsGo n rest _ hn' hrest, List.reverse_cons, ncL_append, ncL_singleton, insertTokenFor_nc, ncL_cons, hk]
+        simp
+      · cases rest with
+        | nil =>
+          show ncL done.reverse = _
+          rw [ncL_singleton, hk, List.append_nil]
+        | cons x rest' =>
+          simp only
+          have hn'' : rest'.length ≤ n := by simp at hn'; omega
+          rw [ncL_stripCommentsGo n rest' (x :: done) hn'' (fun y hy => hrest y (List.mem_cons_of_mem _ hy)),
+            List.reverse_cons, ncL_append, ncL_singleton, ncL_cons, ncL_cons, hk]
+          simp
+
+theorem ncL_stripCommentsLevel (ks : List FNode) (h : ∀ k ∈ ks, Removable k) : ncL (stripCommentsLevel ks) = ncL ks := by
+  unfold stripCommentsLevel
+  rw [ncL_stripCommentsGo ks.length ks [] (Nat.le_refl _) h]
+  simp [ncL, leavesL, ncToks]
+
+
+theorem pure_comment_nc (k : FNode) (hp : commentsPure k = true) (hc : isCommentNode k = true) : ncToks k.leaves = [] := by
+  cases k with
+  | tok tt v =>
+    simp only [isCommentNode, FNode.isInst, FNode.ttIn, Bool.false_or] at hc
+    simp [leaves, ncToks, hc]
+  | grp c cv ks =>
+    simp only [isCommentNode, FNode.isInst, FNode.ttIn, Bool.or_false] at hc
+    have hcc : c = .Comment := by
+      rcases Bool.or_eq_true _ _ |>.mp hc with h | h
+      · simp at h
+      · simpa using h
+    subst hcc
+    unfold commentsPure at hp
+    simp only [bne_self_eq_false, Bool.false_or, Bool.and_eq_true] at hp
+    exact ncToks_of_all _ hp.2
+
+/-- the level function of `StripCommentsFilter` as given to `bottomUp` -/
+def scLevel : Nat → Cls → List FNode → Except PyErr (List FNode) := fun _ _ ks => .ok (stripCommentsLevel ks)
+
+mutual
+theorem nc_bottomUp : ∀ (n : FNode) (fuel depth : Nat) (n' : FNode), commentsPure n = true →
+    bottomUp scLevel fuel depth n = .ok n' →
+    ncToks n'.leaves = ncToks n.leaves ∧ isCommentNode n' = isCommentNode n
+  | .tok tt v, fuel, depth, n', _, h => by
+    unfold bottomUp at h
+    simp only [Except.ok.injEq] at h
+    rw [← h]
+    exact ⟨rfl, rfl⟩
+  | .grp c cv ks, fuel, depth, n', hp, h => by
+    unfold bottomUp at h
+    cases fuel with
+    | zero => simp at h
+    | succ fuel' =>
+      simp only at h
+      cases hk : bottomUpL scLevel fuel' (depth + 1) ks with
+      | error e => rw [hk] at h; cases h
+      | ok ks' =>
+        rw [hk] at h
+        simp only [scLevel, Except.ok.injEq] at h
+        rw [← h]
+        unfold commentsPure at hp
+        simp only [Bool.and_eq_true] at hp
+        obtain ⟨h1, h2⟩ := nc_bottomUpL ks fuel' (depth + 1) ks' hp.1 hk
+        refine ⟨?_, rfl⟩
+        show ncL (stripCommentsLevel ks') = ncL ks
+        rw [ncL_stripCommentsLevel ks' h2, h1]
+theorem nc_bottomUpL : ∀ (ns : List FNode) (fuel depth : Nat) (ns' : List FNode), commentsPureL ns = true →
+    bottomUpL scLevel fuel depth ns = .ok ns' →
+    ncL ns' = ncL ns ∧ ∀ k' ∈ ns', Removable k'
+  | [], fuel, depth, ns', _, h => by
+    unfold bottomUpL at h
+    simp only [Except.ok.injEq] at h
+    rw [← h]
+    exact ⟨rfl, by simp⟩
+  | k :: rest, fuel, depth, ns', hp, h => by
+    unfold bottomUpL at h
+    unfold commentsPureL at hp
+    simp only [Bool.and_eq_true] at hp
+    cases hk : bottomUp scLevel fuel depth k with
+    | error e => rw [hk] at h; cases h
+    | ok k' =>
+      rw [hk] at h
+      simp only at h
+      cases hr : bottomUpL scLevel fuel depth rest with
+      | error e => rw [hr] at h; cases h
+      | ok rest' =>
+        rw [hr] at h
+        simp only [Except.ok.injEq] at h
+        obtain ⟨a1, a2⟩ := nc_bottomUp k fuel depth k' hp.1 hk
+        obtain ⟨b1, b2⟩ := nc_bottomUpL rest fuel depth rest' hp.2 hr
+        rw [← h]
+        refine ⟨by rw [ncL_cons, ncL_cons, a1, b1], ?_⟩
+        intro x hx
+        rcases List.mem_cons.mp hx with rfl | hx'
+        · intro hc
+          rw [a1]
+          exact pure_comment_nc k hp.1 (by rw [← a2]; exact hc)
+        · exact b2 x hx'
+end
+
+/-- `StripCommentsFilter`, on a tree whose `Comment` groups hold only comment and whitespace leaves (what grouping builds),
+removes only comment-typed leaves and inserts only whitespace-typed leaves: all other leaves survive, in order, unchanged -/
+theorem stripComments_preserves_noncomment (fuel : Nat) (n n' : FNode) (hp : commentsPure n = true)
+    (h : stripComments fuel n = .ok n') : ncToks n'.leaves = ncToks n.leaves :=
+  (nc_bottomUp n fuel 0 n' hp h).1
+
 
 end Sql
